@@ -399,7 +399,12 @@ class PriceLoop(FunctionContract):
         cfg = vc.obj("rpylib.montecarlo.configuration:ConfigurationMultiLevel", nb_of_processes=1, seed=None, initial_mc_paths=N0, initial_level=L0, maximum_level=Lmax,
                      convergence_rates=cr, convergence_criteria=crit)
         stats = vc.obj(ST + "MLMCStatistics")
-        eng = vc.obj(EN + "Engine", configuration=cfg, coupling_process=g["mk_process"](), path_managers=[vc.obj(PA + "MLMCPath")], statistics=stats)
+        # the engine is built by its real constructor on a configuration whose maximum level is lowered AFTERWARDS: "the
+        # configured maximum" is the configuration's value when the run starts (nothing may remember the constructor's)
+        cfg.fields["maximum_level"] = Lmax + 1
+        eng = vc.new(EN + "Engine", cfg, g["mk_process"]())
+        cfg.fields["maximum_level"] = Lmax
+        eng.fields.update(path_managers=[vc.obj(PA + "MLMCPath")], statistics=stats)
         # state established by Engine.initialisation (create_mlmc_statistics: initial_mc_paths rows for every initial level)
         g.update(L0=L0, Lmax=Lmax, cap=[N0] * (L0 + 1), filled=[0] * (L0 + 1), simulated=[0] * (L0 + 1), levels_run=[], N0=N0, stats=stats)
         return dict(self=eng, product=vc.obj("rpylib.product.product:Product", maturity=vc.real("maturity")), rmse=vc.real("rmse"))
@@ -609,3 +614,10 @@ class ScriptedEngine:
 
 
 BOUNDED = [ScriptedEngine()]
+
+
+def LATE_UNITS():
+    # "the sample mean of (fine minus coarse) discounted payoffs": the two payoffs of one multilevel sample are the values of
+    # the product on the fine and on the coarse path of THAT sample, each on its own (the lemma lives in c17)
+    from contracts import c17
+    return [c17.MultilevelPathProcess()]
